@@ -119,7 +119,15 @@ fn check_cell(c: &Cell, st: &mut Stats) -> Result<(), String> {
                 return Err(format!("{}: call consumed {} of {}", what(), n, wire.len()));
             }
             if matches!(expect, Expect::Err) {
-                return Err(format!("{}: non-numeric Content-Length accepted by the call", what()));
+                // "a non-numeric Content-Length is an error": on the single-call API the error may come with the head or when
+                // the body is asked for (both are observation points of the statement); it must come
+                match call.into_body() {
+                    Err(_) => {
+                        st.class("bad_content_length_reported_by_into_body");
+                        return Ok(());
+                    }
+                    Ok(_) => return Err(format!("{}: non-numeric Content-Length accepted by the call", what())),
+                }
             }
             if c.status != 100 {
                 match call.into_body() {
